@@ -67,6 +67,14 @@ def build_mem(d):
     if d.get('read_own_write'):
         o = pyrtl.Output(bw, 'rdw')
         o <<= m[pyrtl.working_block().wirevector_by_name['wa0']]
+    if d.get('const_ra') is not None:
+        # the documented mem[<int>] form: a read port whose address is a constant (of a memory that is written)
+        o = pyrtl.Output(bw, 'rdc')
+        o <<= m[pyrtl.Const(d['const_ra'], bitwidth=aw)]
+    if d.get('clear_port'):
+        # a further write port that clears a word: its data is the literal 0
+        ca, clr = pyrtl.Input(aw, 'ca'), pyrtl.Input(1, 'clr')
+        m[ca] <<= pyrtl.MemBlock.EnabledWrite(pyrtl.Const(0, bitwidth=bw), clr)
     return pyrtl.working_block()
 
 
@@ -151,6 +159,10 @@ def cases(tier, seed):
         out.append({'fam': 'MEM', 'aw': 1, 'bw': 8, 'nr': 2, 'nw': 2, 'k': 'two_sims', 'backend': be, 'K': 2})
         out.append({'fam': 'MEM', 'aw': 2, 'bw': 3, 'nr': 1, 'nw': 1, 'k': 'two_sims', 'backend': be, 'K': 2, 'shared_map': True})
     for be in BACKENDS:
+        out.append({'fam': 'MEM', 'aw': 2, 'bw': 4, 'nr': 1, 'nw': 1, 'const_ra': 2, 'k': 'bmc_uninit', 'backend': be, 'K': 3})
+        out.append({'fam': 'MEM', 'aw': 2, 'bw': 4, 'nr': 1, 'nw': 1, 'const_ra': 0, 'k': 'step', 'backend': be})
+        out.append({'fam': 'MEM', 'aw': 2, 'bw': 4, 'nr': 1, 'nw': 1, 'clear_port': True, 'k': 'bmc_uninit', 'backend': be, 'K': 3})
+        out.append({'fam': 'MEM', 'aw': 2, 'bw': 4, 'nr': 1, 'nw': 1, 'clear_port': True, 'k': 'step', 'backend': be})
         for nw_ in (1, 2):
             out.append({'fam': 'MEM', 'aw': 2, 'bw': 4, 'nr': 1, 'nw': nw_, 'regdrive': True, 'k': 'bmc_uninit', 'backend': be, 'K': 3})
             out.append({'fam': 'MEM', 'aw': 2, 'bw': 4, 'nr': 1, 'nw': nw_, 'regdrive': True, 'k': 'step', 'backend': be})
@@ -194,8 +206,14 @@ def array_oracle(case, v, arr, t):
     reads = {'rd%d' % i: z3.Select(arr, v.inp('ra%d' % i, t, aw)) for i in range(nr)}
     if case.get('read_own_write'):
         reads['rdw'] = z3.Select(arr, v.inp('wa0', t, aw))
+    if case.get('const_ra') is not None:
+        reads['rdc'] = z3.Select(arr, z3.BitVecVal(case['const_ra'], aw))
     new = arr
     ens = []
+    if case.get('clear_port'):
+        en = v.inp('clr', t, 1) == 1
+        new = z3.If(en, z3.Store(new, v.inp('ca', t, aw), z3.BitVecVal(0, bw)), new)
+        ens.append((en, v.inp('ca', t, aw)))
     for j in range(nw):
         ek = case.get('enable', True)
         if case.get('cond'):
@@ -442,6 +460,13 @@ def replay(cex):
             e = arr.get(inp('ra%d' % i, t), 0)
             if trace['rd%d' % i][t] != e:
                 bad.append('cycle %d: read port %d at %d returned %d, array holds %d' % (t, i, inp('ra%d' % i, t), trace['rd%d' % i][t], e))
+        if case.get('const_ra') is not None and trace['rdc'][t] != arr.get(case['const_ra'], 0):
+            bad.append('cycle %d: the constant-address read port (address %d) returned %d, array holds %d'
+                       % (t, case['const_ra'], trace['rdc'][t], arr.get(case['const_ra'], 0)))
+        if case.get('clear_port') and inp('clr', t):
+            pending_clear = (inp('ca', t), 0)
+        else:
+            pending_clear = None
         if case.get('read_own_write') and trace['rdw'][t] != arr.get(inp('wa0', t), 0):
             bad.append('cycle %d: read at the write address returned %d, array holds %d (write must take effect at the END of the cycle)'
                        % (t, trace['rdw'][t], arr.get(inp('wa0', t), 0)))
@@ -455,6 +480,8 @@ def replay(cex):
                     arr[inp('wa%d' % j, t)] = inp('wd%d' % j, t)
             elif (ek == 'const1' and j == 0) or (not (ek in ('const0', 'const1') and j == 0) and (not ek or inp('we%d' % j, t))):
                 arr[inp('wa%d' % j, t)] = inp('wd%d' % j, t)
+        if pending_clear is not None:
+            arr[pending_clear[0]] = 0
     got = mems.get('m', {})
     for a in range(min(1 << aw, 1024)):
         try:
